@@ -110,6 +110,18 @@ prop("C04",
      residual="atomicity inside the big Model functions (insert_rows failing half-way, paste, move_columns_action); operations not yet under contract")
 
 
+prop("C08",
+     units=["finite"],
+     scans=["number-writers"],
+     level="proof",
+     claim="every function in base/src that constructs a numeric cell value (array/spill converters, the scalar result guard, "
+           "Worksheet::set_cell_with_number) yields a finite number, so no built-in function or formula can leave NaN/inf in a cell; "
+           "closed-world scan number-writers confirms these are all the construction sites",
+     assumptions=["f64::is_nan / is_infinite behave as vstd's is_nan_spec / is_infinite_spec", "the literal 0.0 is finite (assume in two converters)",
+                  "D5 shells: CalcResult/CellReferenceIndex/Cell/Worksheet around the guard fragments; update_cell/new_number stubs"],
+     residual="numbers arriving through xlsx import / from_bytes (other crates / serialized data) are outside the scan")
+
+
 def evidence(pid, tier, seed, results, scan_results, kani_results, violations, known_hits, undecided, wall):
     P = PROPS[pid]
     obligations = 0
